@@ -1781,5 +1781,87 @@ seed("c06-bdat-result-through-conn-field", "C06", "R-go-capture", "conn.go",
 seed("c08-fill-one-status-per-channel", "C08", "R-status-fill-shape", "conn.go",
 """				continue chLoop""", """				break chLoop""", "a duplicated recipient gets one status: the serving goroutine blocks for good")
 
+# ---- batches 40-43 (2026-09-28) ----
+for pid in ("C01", "C07"):
+    seed(pid.lower()+"-body-read-deadline-from-write-timeout", pid, "R-write-deadline-owner", "conn.go",
+"""	defer c.reset()
+
+	if c.server.LMTP {
+		c.handleDataLMTP()""", """	defer c.reset()
+
+	if c.server.ReadTimeout != 0 {
+		c.conn.SetReadDeadline(time.Now().Add(c.server.WriteTimeout))
+	}
+
+	if c.server.LMTP {
+		c.handleDataLMTP()""", "the body is read against the write timeout")
+seed("c14-rrvs-rounded", "C14", "R-field-key", "client.go",
+"""opts.RequireRecipientValidSince.Format(time.RFC3339)""", """opts.RequireRecipientValidSince.Round(time.Second).Format(time.RFC3339)""", "a timestamp with .5 s or more is sent as the next second")
+for pid in ("C10", "C03"):
+    seed(pid.lower()+"-setsession-keeps-existing", pid, "R-tls-success-effects", "conn.go",
+"""	defer c.locker.Unlock()
+	c.session = session""", """	defer c.locker.Unlock()
+	if c.session == nil {
+		c.session = session
+	}""", "setSession(nil) after the STARTTLS logout is a no-op")
+for pid in ("C12", "C14"):
+    seed(pid.lower()+"-auth-not-advertised-once-authenticated", pid, "R-caps-table", "conn.go",
+"""	if c.authAllowed() {
+		mechs := c.authMechanisms()""", """	if c.authAllowed() && !c.didAuth {
+		mechs := c.authMechanisms()""", "after AUTH and a re-EHLO the client drops MailOptions.Auth silently")
+seed("c20-handshake-under-conn-lock", "C20", "R-lock-order", "conn.go",
+"""	tlsConn := tls.Server(c.conn, c.server.TLSConfig)
+
+	if err := tlsConn.Handshake(); err != nil {
+		c.writeResponse(550, EnhancedCode{5, 0, 0}, "Handshake error")
+		return
+	}
+
+	c.conn = tlsConn
+	c.init()
+""", """	c.locker.Lock()
+	tlsConn := tls.Server(c.conn, c.server.TLSConfig)
+
+	if err := tlsConn.Handshake(); err != nil {
+		c.locker.Unlock()
+		c.writeResponse(550, EnhancedCode{5, 0, 0}, "Handshake error")
+		return
+	}
+
+	c.conn = tlsConn
+	c.init()
+	c.locker.Unlock()
+""", "Server.Close waits for a peer that stalls in the TLS handshake")
+seed("c19-wrapped-toolong", "C19", "R-toolong-close", "conn.go",
+"""		if c.lineLimitReader.exceeded() {
+			return \"\", ErrTooLongLine
+		}""", """		if c.lineLimitReader.exceeded() {
+			return \"\", fmt.Errorf("%w (%d octets withheld)", ErrTooLongLine, len(line))
+		}""", "the refusal is not recognised by == and answered 421")
+for pid in ("C02", "C08"):
+    seed(pid.lower()+"-closed-check-behind-timeout-config", pid, "R-no-dispatch-after-close", "server.go",
+"""		if c.isClosed() {
+			return nil
+		}
+
+		line, err := c.readLine()""", """		if s.ReadTimeout != 0 && c.isClosed() {
+			return nil
+		}
+
+		line, err := c.readLine()""", "without a read timeout the loop keeps dispatching buffered commands after Close")
+for pid in ("C13", "C03"):
+    seed(pid.lower()+"-rcptmax-after-backend-accepts", pid, "R-accepted-recorded", "conn.go",
+"""		c.writeError(451, EnhancedCode{4, 0, 0}, err)
+		return
+	}
+	c.recipients = append(c.recipients, recipient)""", """		c.writeError(451, EnhancedCode{4, 0, 0}, err)
+		return
+	}
+	if c.server.MaxRecipients > 0 && len(c.recipients) >= c.server.MaxRecipients+1 {
+		c.writeResponse(452, EnhancedCode{4, 5, 3}, "Too many recipients")
+		return
+	}
+	c.recipients = append(c.recipients, recipient)""", "the backend holds a recipient the server does not record")
+
 json.dump(S, open(os.path.join(os.path.dirname(os.path.abspath(__file__)), "bank.json"), "w"), indent=1)
 print(len(S), "seeds")
